@@ -834,6 +834,133 @@ func rawXML(r *Run, innerToo bool) {
 				fmt.Sprintf("%s splices a data value into raw XML text; the value passes through %s, which is not an encoding/xml escaper: characters that are not legal in XML (e.g. U+0001) survive and make the part ill-formed", shortName(top), name))
 		}
 	}
+	// (1b) the substitution may be delegated: a function that handles raw XML bytes hands the text to
+	//      a module helper whose ReplaceAllStringFunc closure inserts data values without escaping.
+	//      That is sound only if every value the helper can insert was escaped beforehand — i.e. the
+	//      value table handed over is built by a function that stores an escaper's result on EVERY path.
+	for _, top := range p.ModFuncs() {
+		if top.Parent() != nil || top.Pkg == nil || top.Pkg.Pkg.Path() != pkgDoc {
+			continue
+		}
+		hasBytesParam, returnsBytes := false, false
+		for _, par := range top.Params {
+			if sl, ok := par.Type().Underlying().(*types.Slice); ok {
+				if b, ok := sl.Elem().Underlying().(*types.Basic); ok && b.Kind() == types.Byte {
+					hasBytesParam = true
+				}
+			}
+		}
+		for i := 0; i < top.Signature.Results().Len(); i++ {
+			if sl, ok := top.Signature.Results().At(i).Type().Underlying().(*types.Slice); ok {
+				if b, ok := sl.Elem().Underlying().(*types.Basic); ok && b.Kind() == types.Byte {
+					returnsBytes = true
+				}
+			}
+		}
+		if !hasBytesParam || !returnsBytes {
+			continue
+		}
+		allInstrs(top, func(in ssa.Instruction) {
+			c, ok := in.(*ssa.Call)
+			if !ok {
+				return
+			}
+			g := staticCallee(c)
+			if g == nil || !p.inModule(g) || g == top || !isStringType(c.Type()) {
+				return
+			}
+			// closures of g that return text containing a converted data value, unescaped
+			unescaped := false
+			for _, cl := range g.AnonFuncs {
+				if len(cl.Params) != 1 || !isStringType(cl.Params[0].Type()) {
+					continue
+				}
+				for _, ret := range returnsOf(cl) {
+					v := retResult(ret, 0)
+					if v == ssa.Value(cl.Params[0]) {
+						continue
+					}
+					if _, isConst := v.(*ssa.Const); isConst {
+						continue
+					}
+					inserts := false
+					for x := range newSlicer(p).Slice(v).Vals {
+						if cc, ok := x.(*ssa.Call); ok && conv[staticCallee(cc)] {
+							inserts = true
+						}
+					}
+					if !inserts {
+						continue
+					}
+					if cc, ok := stripConv(v).(*ssa.Call); ok && isXMLSanitiser(p, staticCallee(cc)) {
+						continue
+					}
+					unescaped = true
+				}
+			}
+			if !unescaped {
+				return
+			}
+			n++
+			// the value tables handed to g at this call: each must come out of a builder that escapes
+			// every entry
+			okAll, why := false, "no pre-escaped value table is handed over"
+			for _, a := range c.Call.Args {
+				if _, isMap := a.Type().Underlying().(*types.Map); !isMap {
+					continue
+				}
+				bc, isCall := a.(*ssa.Call)
+				if !isCall {
+					okAll, why = false, "the value table is the caller's own, unescaped"
+					break
+				}
+				h := staticCallee(bc)
+				if h == nil || !p.inModule(h) {
+					okAll, why = false, "the value table is not built by a function of this module"
+					break
+				}
+				okAll, why = true, shortName(h)+" escapes every entry"
+				allInstrs(h, func(in2 ssa.Instruction) {
+					mu, ok := in2.(*ssa.MapUpdate)
+					if !ok {
+						return
+					}
+					var leaves []ssa.Value
+					var collect func(v ssa.Value, d int)
+					seen := map[ssa.Value]bool{}
+					collect = func(v ssa.Value, d int) {
+						v = stripConv(v)
+						if v == nil || seen[v] || d > 6 {
+							return
+						}
+						seen[v] = true
+						switch x := v.(type) {
+						case *ssa.Phi:
+							for _, e := range x.Edges {
+								collect(e, d+1)
+							}
+						case *ssa.MakeInterface:
+							collect(x.X, d+1)
+						default:
+							leaves = append(leaves, v)
+						}
+					}
+					collect(mu.Value, 0)
+					for _, lf := range leaves {
+						if cc, ok := lf.(*ssa.Call); ok && isXMLSanitiser(p, staticCallee(cc)) {
+							continue
+						}
+						if _, isConst := lf.(*ssa.Const); isConst {
+							continue
+						}
+						okAll, why = false, fmt.Sprintf("%s stores a value into the table without escaping it on some path (at %s)", shortName(h), p.pos(mu.Pos()))
+					}
+				})
+			}
+			r.Check("raw-xml", shortName(top)+":delegated:"+shortName(g), c.Pos(), okAll,
+				fmt.Sprintf("%s has the values substituted into raw XML text by %s, whose replacement function inserts them unescaped; every value must therefore be escaped before it is handed over: %s", shortName(top), shortName(g), why))
+		})
+	}
 	if !innerToo {
 		r.Min("raw_xml_splice_sinks", n, 1)
 		return
